@@ -585,6 +585,7 @@ fn gen_trace(w: &mut SessWorker, rng: &mut Rng, res: &mut ExecResult) -> Option<
     let no_prelude = rng.chance(0.08);
     let mut cfg = Gen::swarm_cfg(rng, false, vec![]);
     cfg.allow_imports = false;
+    cfg.multiline_strings = false; // scripts are assembled line by line
     cfg.weights[18] = cfg.weights[18].max(6); // prints (markers)
     cfg.weights[15] = 0;
     cfg.weights[23] = 0;
